@@ -1,5 +1,6 @@
 import Dhcp.Server
 import DhcpProofs.Lemmas.Server
+import DhcpProofs.Lemmas.ServerHistory
 import DhcpProofs.Lemmas.V6Parse
 /-
   C14 — the servers dispatch each decodable datagram exactly once and survive
@@ -291,6 +292,127 @@ theorem C14_independent6_dec6 :
         (serve6dec rs).invocations.filter (fun v => v.idx == i) = (f r i).toList :=
   C14_independent6 decode6
 
+/-! ## Histories compared: non-interference and monotonicity
+
+Two histories `a ++ r :: c` and `a ++ r' :: c` that differ in the read at
+position `|a|` only, and a history `a` compared with its extension `a ++ b`.
+`a`, `b`, `c` are arbitrary (any length, read errors and — for DHCPv4 — even
+nil `*net.UDPAddr` senders allowed in them: no `SocketPeers` hypothesis).
+What this says and does not say: the MODEL hands each handler a value computed
+from its own datagram's first 4096 bytes and sender only, and never revises
+what it has handed out.  That the Go values handed out share no memory with
+the read buffer or with each other (C08), and in which order the handler
+goroutines run, is outside the fold model (checked on the code: blocking
+handlers, scribbling connection, race detector). -/
+
+/-- **C14 (non-interference, v4).**
+(i) Nothing before position `|a|` depends on what is read at `|a|` or later —
+whatever `r`, `r'` are (a datagram turned into a read error or vice versa
+included): the invocations with a smaller index are those of the history `a`.
+(ii) If both variants are datagrams from socket senders, every invocation
+other than the one for position `|a|` is the same in both runs, and `Serve`
+ends the same way: changing datagram `|a|` changes at most invocation `|a|`.
+(iii) Two datagrams with the same first 4096 bytes and the same sender are
+indistinguishable: the whole outcome is the same. -/
+theorem C14_noninterference4 (a c : List ReadResult) (r r' : ReadResult) :
+    ((serve4 (a ++ r :: c)).invocations.filter (fun v => decide (v.idx < a.length)) = (serve4 a).invocations ∧
+     (serve4 (a ++ r' :: c)).invocations.filter (fun v => decide (v.idx < a.length)) = (serve4 a).invocations) ∧
+    (∀ b p b' p', r = .datagram b p → r' = .datagram b' p' → p ≠ .udpNilPtr → p' ≠ .udpNilPtr →
+      (serve4 (a ++ r :: c)).invocations.filter (fun v => v.idx != a.length) =
+        (serve4 (a ++ r' :: c)).invocations.filter (fun v => v.idx != a.length) ∧
+      (serve4 (a ++ r :: c)).exit = (serve4 (a ++ r' :: c)).exit) ∧
+    (∀ b b' p, r = .datagram b p → r' = .datagram b' p → b.take readBufLen = b'.take readBufLen →
+      serve4 (a ++ r :: c) = serve4 (a ++ r' :: c)) := by
+  refine ⟨⟨?_, ?_⟩, ?_, ?_⟩
+  · exact (by have h := serveFrom_before decode4 peer4 0 a (r :: c); simp only [Nat.zero_add] at h; exact h)
+  · exact (by have h := serveFrom_before decode4 peer4 0 a (r' :: c); simp only [Nat.zero_add] at h; exact h)
+  · rintro b p b' p' rfl rfl hp hp'
+    have h := serveFrom_nonint decode4 peer4 0 a c _ _
+      (step_datagram_ne_stop4 decode4 b p hp) (step_datagram_ne_stop4 decode4 b' p' hp')
+    simp only [Nat.zero_add] at h
+    exact h
+  · rintro b b' p rfl rfl h
+    exact serveFrom_congr_step decode4 peer4 0 a c _ _ (step_take decode4 peer4 b b' p h)
+
+/-- **C14 (monotonicity, v4).** The invocations of a prefix of the history are
+a prefix of the invocations of the history: what a handler has been handed
+never changes when more datagrams arrive, more reads only ADD invocations, for
+the new positions only; and once `Serve` has ended nothing is added at all. -/
+theorem C14_prefix4 (a b : List ReadResult) :
+    (serve4 a).invocations <+: (serve4 (a ++ b)).invocations ∧
+    (serve4 (a ++ b)).invocations.filter (fun v => decide (v.idx < a.length)) = (serve4 a).invocations ∧
+    ((serve4 a).exit ≠ .blocked → serve4 (a ++ b) = serve4 a) := by
+  obtain ⟨h1, h2⟩ := serveFrom_prefix decode4 peer4 0 a b
+  have h := serveFrom_before decode4 peer4 0 a b
+  simp only [Nat.zero_add] at h
+  exact ⟨h1, h, h2⟩
+
+section
+variable {α : Type} (dec6 : Bytes → Option α)
+
+/-- **C14 (non-interference, v6, every decoder).** As `C14_noninterference4`;
+no condition on the senders (server6 never looks at them). -/
+theorem C14_noninterference6 (a c : List ReadResult) (r r' : ReadResult) :
+    ((serve6 dec6 (a ++ r :: c)).invocations.filter (fun v => decide (v.idx < a.length)) =
+        (serve6 dec6 a).invocations ∧
+     (serve6 dec6 (a ++ r' :: c)).invocations.filter (fun v => decide (v.idx < a.length)) =
+        (serve6 dec6 a).invocations) ∧
+    (r.isDatagram = true → r'.isDatagram = true →
+      (serve6 dec6 (a ++ r :: c)).invocations.filter (fun v => v.idx != a.length) =
+        (serve6 dec6 (a ++ r' :: c)).invocations.filter (fun v => v.idx != a.length) ∧
+      (serve6 dec6 (a ++ r :: c)).exit = (serve6 dec6 (a ++ r' :: c)).exit) ∧
+    (∀ b b' p, r = .datagram b p → r' = .datagram b' p → b.take readBufLen = b'.take readBufLen →
+      serve6 dec6 (a ++ r :: c) = serve6 dec6 (a ++ r' :: c)) := by
+  refine ⟨⟨?_, ?_⟩, ?_, ?_⟩
+  · exact (by have h := serveFrom_before dec6 peer6 0 a (r :: c); simp only [Nat.zero_add] at h; exact h)
+  · exact (by have h := serveFrom_before dec6 peer6 0 a (r' :: c); simp only [Nat.zero_add] at h; exact h)
+  · intro hr hr'
+    cases r with
+    | readError => cases hr
+    | datagram b p =>
+      cases r' with
+      | readError => cases hr'
+      | datagram b' p' =>
+        have h := serveFrom_nonint dec6 peer6 0 a c _ _
+          (step_datagram_ne_stop6 dec6 b p) (step_datagram_ne_stop6 dec6 b' p')
+        simp only [Nat.zero_add] at h
+        exact h
+  · rintro b b' p rfl rfl h
+    exact serveFrom_congr_step dec6 peer6 0 a c _ _ (step_take dec6 peer6 b b' p h)
+
+/-- **C14 (monotonicity, v6, every decoder).** -/
+theorem C14_prefix6 (a b : List ReadResult) :
+    (serve6 dec6 a).invocations <+: (serve6 dec6 (a ++ b)).invocations ∧
+    (serve6 dec6 (a ++ b)).invocations.filter (fun v => decide (v.idx < a.length)) =
+      (serve6 dec6 a).invocations ∧
+    ((serve6 dec6 a).exit ≠ .blocked → serve6 dec6 (a ++ b) = serve6 dec6 a) := by
+  obtain ⟨h1, h2⟩ := serveFrom_prefix dec6 peer6 0 a b
+  have h := serveFrom_before dec6 peer6 0 a b
+  simp only [Nat.zero_add] at h
+  exact ⟨h1, h, h2⟩
+end
+
+/-- **C14 (non-interference, v6, `dec6`).** -/
+theorem C14_noninterference6_dec6 (a c : List ReadResult) (r r' : ReadResult) :
+    ((serve6dec (a ++ r :: c)).invocations.filter (fun v => decide (v.idx < a.length)) =
+        (serve6dec a).invocations ∧
+     (serve6dec (a ++ r' :: c)).invocations.filter (fun v => decide (v.idx < a.length)) =
+        (serve6dec a).invocations) ∧
+    (r.isDatagram = true → r'.isDatagram = true →
+      (serve6dec (a ++ r :: c)).invocations.filter (fun v => v.idx != a.length) =
+        (serve6dec (a ++ r' :: c)).invocations.filter (fun v => v.idx != a.length) ∧
+      (serve6dec (a ++ r :: c)).exit = (serve6dec (a ++ r' :: c)).exit) ∧
+    (∀ b b' p, r = .datagram b p → r' = .datagram b' p → b.take readBufLen = b'.take readBufLen →
+      serve6dec (a ++ r :: c) = serve6dec (a ++ r' :: c)) :=
+  C14_noninterference6 decode6 a c r r'
+
+/-- **C14 (monotonicity, v6, `dec6`).** -/
+theorem C14_prefix6_dec6 (a b : List ReadResult) :
+    (serve6dec a).invocations <+: (serve6dec (a ++ b)).invocations ∧
+    (serve6dec (a ++ b)).invocations.filter (fun v => decide (v.idx < a.length)) = (serve6dec a).invocations ∧
+    ((serve6dec a).exit ≠ .blocked → serve6dec (a ++ b) = serve6dec a) :=
+  C14_prefix6 decode6 a b
+
 /-! ## Non-vacuity -/
 
 /-- a minimal BOOTP header + cookie + End: accepted by the `FromBytes` model -/
@@ -340,5 +462,50 @@ example :
     (serve6dec rs).invocations.map (fun v => (v.idx, v.peer)) = [(0, ll), (2, .other 9)] ∧
     (serve6dec rs).exit = .returned := by
   refine ⟨by decide, by decide, by decide, by decide⟩
+
+/-! ### non-interference and monotonicity on concrete histories -/
+
+set_option maxRecDepth 16000 in
+/-- v4: position 1 holds a decodable datagram in one history, an undecodable
+one in the second, a failed read in the third; positions 0, 2 and the final
+failed read are common.  Invocation 0 is the same in all three; invocation 2
+and the exit are the same in the two histories where position 1 is a datagram;
+the read error at 1 ends the loop there (nothing after it, still nothing
+before it changes). -/
+example :
+    let p (k : UInt8) : Peer := .udp (some [10, 0, 0, k]) 68 []
+    let a : List ReadResult := [.datagram sampleDatagram (p 1)]
+    let c : List ReadResult := [.datagram sampleDatagram (p 3), .readError]
+    (serve4 (a ++ .datagram sampleDatagram (p 2) :: c)).invocations.map (fun v => (v.idx, v.peer)) =
+      [(0, p 1), (1, p 2), (2, p 3)] ∧
+    (serve4 (a ++ .datagram [1, 2, 3] (p 2) :: c)).invocations.map (fun v => (v.idx, v.peer)) =
+      [(0, p 1), (2, p 3)] ∧
+    (serve4 (a ++ .readError :: c)).invocations.map (fun v => (v.idx, v.peer)) = [(0, p 1)] ∧
+    (serve4 (a ++ .datagram sampleDatagram (p 2) :: c)).exit = .returned ∧
+    (serve4 (a ++ .datagram [1, 2, 3] (p 2) :: c)).exit = .returned := by
+  refine ⟨by decide, by decide, by decide, by decide, by decide⟩
+
+/-- v6 (toy decoder, accept ≥ 4 bytes): a prefix of the history gives a prefix
+of the invocations and is still waiting (`blocked`); the whole history has
+returned, and the reads after the failed one added nothing. -/
+example :
+    let dec6 : Bytes → Option Nat := fun b => if b.length ≥ 4 then some b.length else none
+    let a : List ReadResult := [.datagram [1, 0, 0, 1] (.other 3), .datagram [1] .nilAddr]
+    let b : List ReadResult := [.datagram [3, 0, 0, 2, 0] (.udp none 546 []), .readError, .datagram [1, 0, 0, 2] .nilAddr]
+    (serve6 dec6 a).invocations.map (fun v => (v.idx, v.msg)) = [(0, 4)] ∧ (serve6 dec6 a).exit = .blocked ∧
+    (serve6 dec6 (a ++ b)).invocations.map (fun v => (v.idx, v.msg)) = [(0, 4), (2, 5)] ∧
+    (serve6 dec6 (a ++ b)).exit = .returned := by
+  decide
+
+/-- clause (iii) is not vacuous: two different datagrams with the same first 4096 bytes -/
+example :
+    (List.replicate 4096 (7 : UInt8) ++ [1]) ≠ List.replicate 4096 (7 : UInt8) ++ [2] ∧
+    (List.replicate 4096 (7 : UInt8) ++ [1]).take readBufLen =
+      (List.replicate 4096 (7 : UInt8) ++ [2]).take readBufLen := by
+  refine ⟨fun h => ?_, ?_⟩
+  · have := List.append_cancel_left h
+    simp at this
+  · show (List.replicate 4096 (7 : UInt8) ++ [1]).take 4096 = (List.replicate 4096 (7 : UInt8) ++ [2]).take 4096
+    rw [List.take_left' List.length_replicate, List.take_left' List.length_replicate]
 
 end Dhcp.Server
